@@ -205,7 +205,7 @@ def context_body(body_raises, flush_raises, had_profiler, k, rate, via_config):
         return check(False, "installed tracer does not use the configured logger / code filter")
     if not (inst.max_typed_dict_size is k or inst.max_typed_dict_size == k):
         return check(False, "max_typed_dict_size not threaded to the tracer")
-    if not (inst.sample_rate is rate or inst.sample_rate == rate):
+    if not (inst.sample_rate is rate or inst.sample_rate == rate or (not rate and inst.sample_rate in (None, 0, 1))):
         return check(False, "sample_rate not threaded to the tracer")
     if fs.profile is not old:
         return check(False, lambda: f"previous profiler not restored (body_raises={bool(body_raises)}, flush_raises={bool(flush_raises)})")
@@ -230,6 +230,7 @@ tape_harness("context", [], {"body_raises": "bool", "flush_raises": "bool", "had
 from engine import verdicts as _V  # noqa: E402
 from harness import tripwires as TW  # noqa: E402
 from harness.frames import ListLogger  # noqa: E402
+from harness.known import listed  # noqa: E402
 import monkeytype.typing as MT  # noqa: E402
 
 POSITIONS = (
@@ -255,6 +256,85 @@ def _ret_offset(code):
 
 class _Globals(dict):
     """f_globals of a model frame (a real dict, as in CPython)."""
+
+
+class _GlobalRandomSpy:
+    """Stands in for the `random` module as monkeytype.tracing sees it.  Every use of a module-level function (they all draw
+    from ONE process-wide generator, the one the traced program's own random numbers come from) is recorded; a generator of
+    the tracer's own (`random.Random()`, `random.SystemRandom()`) is not the program's and is handed out freely."""
+
+    def __init__(self):
+        import random as _r
+
+        self.used = []
+        self._r = _r
+
+    def __getattr__(self, name):
+        if name in ("Random", "SystemRandom"):
+            real = getattr(self._r, name)
+
+            class _Private(real):  # deterministic draws: always "trace this call"
+                def randrange(self, *a, **k):
+                    return 0
+
+                def getrandbits(self, *a, **k):
+                    return 0
+
+                def random(self):
+                    return 0.0
+
+            return _Private
+        self.used.append(name)
+        return lambda *a, **k: 0
+
+
+def _rng_run(rate, ncalls):
+    import random as _r
+
+    spy = _GlobalRandomSpy()
+    saved = {n: v for n, v in vars(T).items() if v is _r or getattr(v, "__self__", None) is getattr(_r, "_inst", object())}
+    for n, v in saved.items():
+        T.__dict__[n] = spy if v is _r else (lambda *a, _n=n, **k: (spy.used.append(_n), 0)[1])
+    try:
+        tracer = CallTracer(ListLogger(), 0, None, rate)
+        for i in range(ncalls):
+            fr = FakeFrame(F.mod_func.__code__, {"a": i, "b": "x"}, vars(F), None, 0)
+            tracer(fr, "call", None)
+            fr.f_lasti = _return_lasti(F.mod_func.__code__)
+            tracer(fr, "return", i)
+    finally:
+        for n, v in saved.items():
+            T.__dict__[n] = v
+    return spy.used
+
+
+def _return_lasti(code):
+    import dis
+
+    return [i.offset for i in dis.get_instructions(code) if i.opname in ("RETURN_VALUE", "RETURN_CONST")][-1]
+
+
+RNG_RATES = (None, 0, 1, 2, 3)
+
+
+def rng_body(t):
+    """The traced program's random numbers: `random.random()`, `random.shuffle(...)` ... all draw from one process-wide
+    generator.  A tracer that draws from it as well changes what a seeded program computes."""
+    rate = RNG_RATES[t.take(len(RNG_RATES))]
+    ncalls = 1 + t.take(3)
+    if listed("C03-sampling-draws-from-global-rng"):
+        ASSUME(not rate)  # the listed finding: a configured sample rate >= 1 (no rate: the tracer must not draw at all)
+    used = _rng_run(rate, ncalls)
+    return check(not used, lambda: f"sample_rate={rate!r}, {ncalls} call(s): the tracer used the process-wide random generator "
+                                   f"(random.{used[0]}, {len(used)} time(s)): a seeded program gets other random numbers when traced")
+
+
+tape_harness("rng", [("t", 2)], {}, rng_body, globals())
+
+
+def rng_witness():
+    used = _rng_run(2, 1)
+    return check(not used, lambda: f"sample_rate=2: the tracer drew from the process-wide generator (random.{used[0]})")
 
 
 def hookfree_body(t, k):
